@@ -146,6 +146,14 @@ impl Desc {
                 )));
             }
 
+            // The un-prefixed name is how a const label of that name was recorded.
+            if label_names.contains(label_name) {
+                return Err(Error::Msg(format!(
+                    "variable label name {} duplicates a const label name",
+                    label_name
+                )));
+            }
+
             if !label_names.insert(format!("${}", label_name)) {
                 return Err(Error::Msg(format!(
                     "duplicate variable label name {}",
